@@ -10,7 +10,6 @@ package main
 // domain is finite.
 
 import (
-	"os"
 	"fmt"
 	"go/token"
 	"go/types"
@@ -617,8 +616,24 @@ func (t *TS) branch(s *State, ifi *ssa.If) (*State, *State) {
 			if n, fl, _, _ := loadedField(pr[0]); n == t.c.V.Inode && fl == "Gen" {
 				if mc, f2 := fieldOfCallResult(pr[1]); mc != nil && f2 == "Gen" && mc.Call.StaticCallee() != nil && mc.Call.StaticCallee().Name() == "MakeFh" {
 					if p, ok := t.argPath(s, mc.Call.Args[0]); ok {
-						eqS.G.Cells["$fh:"+p] = AV{K: KBool, B: true}
+						owner := ""
+						if _, _, base, _ := loadedField(pr[0]); base != nil {
+							if av := t.eval(s, base); len(av.Txns) == 1 {
+								owner = av.Txns[0]
+							}
+						}
+						eqS.G.Cells["$fh:"+p] = AV{K: KBool, B: true, Src: owner}
 					}
+				} else if ap, ok := t.argPath(s, pr[1]); ok && strings.HasPrefix(ap, "fh(") && strings.HasSuffix(ap, ").Gen") {
+					// the decoded handle was handed down (as a parameter) to the function that compares
+					p := strings.TrimSuffix(strings.TrimPrefix(ap, "fh("), ").Gen")
+					owner := ""
+					if _, _, base, _ := loadedField(pr[0]); base != nil {
+						if av := t.eval(s, base); len(av.Txns) == 1 {
+							owner = av.Txns[0]
+						}
+					}
+					eqS.G.Cells["$fh:"+p] = AV{K: KBool, B: true, Src: owner}
 				}
 			}
 		}
@@ -847,6 +862,12 @@ func (t *TS) step(s *State, in ssa.Instruction) []*State {
 			} else if c, _, ok := cellOf(x.X); ok {
 				cell = c
 			}
+			if cell != "" && !isTrackedType(x.Type()) {
+				// request-derived values (e.g. a decoded handle kept in a local) keep their path
+				if v, ok := s.G.Cells[cell]; ok && v.K == KArg {
+					s.Env[x] = v
+				}
+			}
 			if cell != "" && isTrackedType(x.Type()) {
 				if v, ok := s.G.Cells[cell]; ok {
 					if v.K != KTop {
@@ -886,8 +907,10 @@ func (t *TS) step(s *State, in ssa.Instruction) []*State {
 			cell = c
 		}
 		if cell != "" {
-			if isTrackedType(x.Val.Type()) {
+			if isTrackedType(x.Val.Type()) || va.K == KArg {
 				s.G.Cells[cell] = va
+			} else if old, had := s.G.Cells[cell]; had && old.K == KArg {
+				delete(s.G.Cells, cell)
 			}
 		}
 		// a store through an inode pointer is a use (handled at FieldAddr)
@@ -1039,6 +1062,12 @@ func (t *TS) call(s *State, call *ssa.Call) []*State {
 				t.setResTag(s, call, -1, "commit", id, callee)
 			} else {
 				n.St = "aborted"
+				// handles validated under this transaction's locks are no longer known to be live
+				for k, v := range s.G.Cells {
+					if strings.HasPrefix(k, "$fh:") && v.Src == id {
+						delete(s.G.Cells, k)
+					}
+				}
 			}
 			s.G.Txns[id] = n
 			return []*State{s}
@@ -1053,9 +1082,6 @@ func (t *TS) call(s *State, call *ssa.Call) []*State {
 				return []*State{s}
 			}
 			old := s.G.Txns[id]
-			if os.Getenv("NFSVERIF_TSDEBUG") != "" && t.entry.Name() == "NFSPROC3_SYMLINK" {
-				fmt.Fprintf(os.Stderr, "TSDEBUG acq %s %s id=%s txns=%v\n", t.c.P.Pos(call.Pos()), callee.Name(), id, s.G.Txns)
-			}
 			t.event("acquire", call, callee.Name(), id, old, old.St != "live", map[string]string{"held": fmt.Sprint(old.Holds)})
 			for oid, o := range s.G.Txns {
 				if oid != id && o.St == "live" && o.Holds {
@@ -1069,7 +1095,8 @@ func (t *TS) call(s *State, call *ssa.Call) []*State {
 			}
 			s.G.Txns[id] = n
 			if callee == V.GetInodeFh && len(args) > 1 && args[1].K == KArg {
-				s.G.Cells["$fh:"+args[1].Cell] = AV{K: KBool, B: true}
+				// valid as long as the validating transaction keeps the lock (void after its abort)
+				s.G.Cells["$fh:"+args[1].Cell] = AV{K: KBool, B: true, Src: id}
 			}
 			mayNil := callee == V.GetInodeFh || callee == V.GetInodeInum || callee == V.AllocInode
 			delete(s.G.Cells, "$rel:acq:"+t.c.P.Pos(call.Pos()))
@@ -1151,12 +1178,6 @@ func (t *TS) call(s *State, call *ssa.Call) []*State {
 				}
 			}
 			outs := t.execFn(callee, args, fav.Binds, s)
-			if os.Getenv("NFSVERIF_TSDEBUG") != "" && (callee.Name() == "getAlloc" || callee.Name() == "DoShrink") {
-				for _, o := range outs {
-					fmt.Fprintf(os.Stderr, "TSDEBUG out %s %s txns=%v res=%v\n", t.entry.Name(), callee.Name(), o.G.Txns, o.results)
-				}
-				fmt.Fprintf(os.Stderr, "TSDEBUG out %s %s n=%d undec=%v\n", t.entry.Name(), callee.Name(), len(outs), t.Undec)
-			}
 			var res []*State
 			for _, o := range outs {
 				ns := &State{G: o.G.clone(), Env: make(map[ssa.Value]AV, len(s.Env))}
@@ -1189,15 +1210,19 @@ func (t *TS) call(s *State, call *ssa.Call) []*State {
 			return res
 		}
 	}
+	// a decoded handle keeps the request path it was decoded from
+	if callee != nil && callee.Name() == "MakeFh" && relPkg(callee) == "fh" && len(cc.Args) == 1 {
+		if p, ok := t.argPath(s, cc.Args[0]); ok {
+			s.Env[call] = AV{K: KArg, Cell: "fh(" + p + ")"}
+			return []*State{s}
+		}
+	}
 	// ---- opaque call
 	name := "?"
 	if callee != nil {
 		name = callee.Name()
 	}
 	for i, a := range args {
-		if os.Getenv("NFSVERIF_TSDEBUG") != "" && name == "Write" {
-			fmt.Fprintf(os.Stderr, "TSDEBUG %s %s arg%d K=%d txns=%v states=%v\n", t.c.P.Pos(call.Pos()), t.entry.Name(), i, a.K, a.Txns, s.G.Txns)
-		}
 		t.useInode(s, call, a, "passed to "+name)
 		if id, ok := t.txnOf(a); ok {
 			ts := s.G.Txns[id]
